@@ -638,7 +638,7 @@ fn run_loom(ctx: &Ctx, report: &mut Report) {
             continue;
         }
         let t0 = std::time::Instant::now();
-        let secs = ctx.tier.pick(20, 150);
+        let secs = ctx.tier.pick(90, 400);
         // loom panics on its own internal failures (deadlock, too many
         // branches): that is a violation of "always terminates" / machinery.
         let p2 = p.clone();
